@@ -122,7 +122,7 @@ func c14Deliveries(nd *cluster.Node, from int) ([]c14Delivery, int) {
 func TestC14(t *testing.T) {
 	r := evid.Start(t, "C14", "exploration")
 	base := t.TempDir()
-	n := r.N(500, 20000)
+	n := r.N(500, 10000)
 	r.Cases("restart", n, 0, func(ci int, rng *rand.Rand) {
 		dir, err := os.MkdirTemp(base, "c")
 		if err != nil {
@@ -477,7 +477,7 @@ func TestC14(t *testing.T) {
 		"rounds); replay of old / never-seen-old / boundary / new messages via gossip, harness-encoded push/pull (join and non-join), the peer's real rebroadcasts, "+
 		"real Join (with and without ignoreOld), automatic rejoin, and (lan profile) the real gossip/reconnect/push-pull loops; non-trivial = old messages replayed "+
 		"through >= 2 paths and at least one newer message delivered after the restart.",
-		r.N(300, 12000),
+		r.N(300, 6000),
 		"LTime 2^64-1 is never generated and scenarios whose cut-off would reach it are excluded (DESIGN 9)",
 		"the snapshot has recorded everything delivered: quiescence + 1.5 s virtual time + quiescence before the crash; the crash is Shutdown() without Leave()",
 		"no graceful leave between the deliveries and the restart")
